@@ -602,4 +602,10 @@ def run_property(prop, tier, seed, replay=None):
              stats.excluded_known, len(reported), wall))
     if rc == 0 and (stats.evaluations < 1 or len(stats.nontrivial) < 2):
         raise HarnessError('search was vacuous: evaluations=%d nontrivial=%d' % (stats.evaluations, len(stats.nontrivial)))
+    ndisc = sum(stats.discards.values())
+    if rc == 0 and ndisc > 1.5 * max(1, stats.evaluations):
+        # health check of the generator / oracle: a run in which most cases are thrown away tests little (this happened
+        # once: a syntax slip in a fixed program text made the compiler refuse 96 % of the C17 cases - and the run was green)
+        raise HarnessError('too many discarded cases: %d discarded, %d evaluated (%s)'
+                           % (ndisc, stats.evaluations, ', '.join('%s: %d' % kv for kv in sorted(stats.discards.items(), key=lambda kv: -kv[1])[:3])))
     return rc
